@@ -70,17 +70,16 @@ Fixpoint upd {A} (n : nat) (f : A -> A) (l : list A) : list A :=
   end.
 Definition ids (l : wl) : list nat := map fst l.
 Definition has (c : nat) (l : wl) : bool := existsb (fun p => Nat.eqb (fst p) c) l.
-Fixpoint find_idx (c : nat) (l : wl) : option nat :=
+(* v.erase-by-swap: find the first element with key c, overwrite it with v.back(), v.pop_back()
+   (group_entry::connection_choked / connection_unqueued, choke_queue::move_connections) *)
+Fixpoint rswap {A} (k : A -> nat) (c : nat) (l : list A) : option (list A) :=
   match l with
   | [] => None
-  | p :: r => if Nat.eqb (fst p) c then Some O else option_map S (find_idx c r)
+  | p :: r => if Nat.eqb (k p) c
+              then Some (match r with [] => [] | _ => last r p :: removelast r end)
+              else option_map (cons p) (rswap k c r)
   end.
-(* swap the found element with v.back(), then v.pop_back() *)
-Definition remove_swap (c : nat) (l : wl) : option wl :=
-  match find_idx c l with
-  | None => None
-  | Some i => Some (removelast (upd i (fun _ => last l (O, 0)) l))
-  end.
+Definition remove_swap (c : nat) (l : wl) : option wl := rswap fst c l.
 Definition push (c : nat) (l : wl) : wl := l ++ [(c, 0)].
 Definition lenN {A} (l : list A) : N := N.of_nat (length l).
 Definition lenZ {A} (l : list A) : Z := Z.of_nat (length l).
@@ -554,19 +553,13 @@ Definition tick_check (h : half) : res half :=
   if (h_cur h =? fold_left (fun a q => (a + q_cu q)%Z) (h_qs h) 0%Z)%Z then Ok h else Err EInternal.
 
 (* choke_queue::move_connections(src, dest, ...) + set_choke_group, as done by ResourceManager::set_group *)
-Fixpoint find_nat (x : nat) (l : list nat) : option nat :=
-  match l with
-  | [] => None
-  | y :: r => if Nat.eqb y x then Some O else option_map S (find_nat x r)
-  end.
 Definition move_half (t g' : nat) (h : half) : res half :=
   let g := grp_of h t in
   let e := getent h t in
   let src := getq h g in
-  match find_nat t (q_ents src) with
+  match rswap (fun x => x) t (q_ents src) with
   | None => Err EInternal
-  | Some i =>
-    let ents' := removelast (upd i (fun _ => last (q_ents src) O) (q_ents src)) in
+  | Some ents' =>
     let h1 := updq g (fun q => mkQ (q_max q) (q_cq q) (q_cu q) (q_heur q) ents') h in
     let h2 := updq g' (fun q => mkQ (q_max q) (q_cq q) (q_cu q) (q_heur q) (q_ents q ++ [t])) h1 in
     let h3 := updq g (q_add (- lenZ (e_q e)) (- lenZ (e_u e))) h2 in
